@@ -94,6 +94,10 @@ func envRecvImpl(comp bool, max int, tail string, flat []byte, cuts []int, withD
 func envDrainImpl(limit int, tail string, flat []byte, cuts []int, withData bool) string {
 	rd := &scriptReader{chunks: segment(append([]byte(nil), flat...), cuts), tail: tailError(tail), withData: withData}
 	atEnd, err := connect.VerifDrain(rd, int64(limit))
+	return drainVerdict(atEnd, err) + fmt.Sprintf(" saw=%d", b2i(rd.sawEnd))
+}
+
+func drainVerdict(atEnd bool, err error) string {
 	switch {
 	case err != nil && atEnd:
 		return "atEnd-and-error"
@@ -125,8 +129,10 @@ func envDrainOp(c *Ctx, op string) string {
 		return envDrainImpl(limit, a["tail"], unhx(a["flat"]), parseCuts(a["seg"]), a["wd"] == "1")
 	})
 	whole := safely(func() string { return envDrainImpl(limit, a["tail"], unhx(a["flat"]), nil, false) })
-	c.Count("drain:" + strings.SplitN(ans, ":", 2)[0])
-	if ans != whole {
+	c.Count("drain:" + strings.SplitN(strings.Fields(ans)[0], ":", 2)[0])
+	// (saw= tells which reads reported the end with no data; that is tied to the model, but it is
+	// not an outcome: the client consults the trailers if the drain is at the end *or* saw it)
+	if strings.Fields(ans)[0] != strings.Fields(whole)[0] {
 		c.Fail("segmentation-dependent-drain", op, ans, "the drain's verdict differs from that of one-piece delivery with the end reported separately, which is: "+whole)
 	}
 	return ans
